@@ -1,7 +1,7 @@
 import asyncio
 import logging
 from time import time_ns
-from typing import Type, Union
+from typing import Dict, Type, Union
 
 from tickit.core.management.event_router import InverseWiring, Wiring
 from tickit.core.management.schedulers.base import BaseScheduler
@@ -41,6 +41,7 @@ class MasterScheduler(BaseScheduler):
         self._initial_time = SimTime(initial_time)
         self.simulation_speed = simulation_speed
         self.running = asyncio.Event()
+        self._pending_interrupts: Dict[ComponentID, SimTime] = dict()
 
     async def setup(self) -> None:
         """Performs base setup and creates an awaitable flag to indicate new wakeups."""
@@ -57,6 +58,11 @@ class MasterScheduler(BaseScheduler):
             component (ComponentID): The component which should be updated.
             when (SimTime): The simulation time at which the update should occur.
         """
+        interrupt = self._pending_interrupts.get(component)
+        if interrupt is not None and interrupt < when:
+            # An interrupt which has not been served yet is not displaced by a later
+            # callback request (e.g. the answer of a tick that was already running).
+            when = interrupt
         super().add_wakeup(component, when)
         self.new_wakeup.set()
 
@@ -104,6 +110,7 @@ class MasterScheduler(BaseScheduler):
 
         for component in components:
             del self.wakeups[component]
+            self._pending_interrupts.pop(component, None)
         # While a tick is in progress interrupts are stamped relative to its start.
         self.last_time = time_ns()
         await self.ticker(when, {component for component in components})
@@ -120,13 +127,12 @@ class MasterScheduler(BaseScheduler):
         Args:
             source (ComponentID): The source component which should be updated.
         """
-        self.add_wakeup(
-            source,
-            SimTime(
-                self.ticker.time
-                + int((time_ns() - self.last_time) * self.simulation_speed)
-            ),
+        when = SimTime(
+            self.ticker.time
+            + int((time_ns() - self.last_time) * self.simulation_speed)
         )
+        self._pending_interrupts.setdefault(source, when)
+        self.add_wakeup(source, when)
 
     def sleep_time(self, when: SimTime) -> float:
         """Computes the real world time until a specified simulation time.
